@@ -34,6 +34,21 @@ Theorem C06_simulation_partial : forall pd su prog x pstf rest,
 Proof. intros. apply decode_sim. assumption. Qed.
 Print Assumptions C06_simulation_partial.
 
+(* Without the escape clause: on programs that contain no APPEND / APPENDS (lists built by LIST /
+   EMPTY_LIST only - e.g. every pickle og-rek's own encoder writes, and every pickle of a value
+   without non-empty lists written by CPython) case (2) cannot occur, so the statement is the
+   property in full: Decode returns a value standing for CPython's, or - PyDict off - the documented
+   map-key error. *)
+Theorem C06_simulation_without_appends : forall pd su prog x pstf rest,
+  forallb no_append prog = true -> qload prog = Some (x, pstf) ->
+  let cfg := Build_dconfig pd su None in
+  (exists v st' b' after,
+      decode cfg init_state (asm_all prog ++ rest) = ((Ok v, st'), after) /\
+      R pd su b' (q_heap pstf) v x /\ Core pd su b' st' pstf)
+  \/ (pd = false /\ exists e st' after, decode cfg init_state (asm_all prog ++ rest) = ((Err e, st'), after)).
+Proof. intros. apply decode_sim_clean; assumption. Qed.
+Print Assumptions C06_simulation_without_appends.
+
 (* one instruction at a time, from any related pair of states *)
 Theorem C06_step : forall pd su b st pst pst' idx rest i,
   Core pd su b st pst -> d_stale st = false -> qstep i pst = Some pst' ->
